@@ -78,6 +78,10 @@ def enum_outcome_pairs(tier):
         yield {"hosts": ["main"], "script": [a], "ops": [["open"], ["adv", 12], ["adv", 70], ["close"]]}
         yield {"hosts": ["main"], "script": [a], "ops": [["open"], ["adv", 0.2], ["close"], ["adv", 5]]}
         yield {"hosts": ["main"], "script": [a], "ops": [["sub"], ["open"], ["adv", 12], ["drop", "fin"], ["adv", 3], ["shutdown"], ["adv", 70]]}
+    for kind in ("close", "shutdown"):
+        for how in ("fin", "reset"):
+            yield {"hosts": ["main"], "script": ["ok"], "ops": [["open"], ["adv", 1], [kind, "after-drop", how], ["adv", 5]]}
+            yield {"hosts": ["main"], "script": ["ok"], "ops": [["sub"], ["open"], ["adv", 1], ["call", "none"], [kind, "after-drop", how], ["adv", 70]]}
     pairs = list(itertools.product(outs, repeat=2))
     for a, b in pairs:
         yield {"hosts": ["main"], "script": [a, b], "ops": [["open"], ["adv", 12], ["adv", 30], ["dropold", "fin"], ["adv", 1], ["call", "5"], ["adv", 80], ["close"], ["adv", 2]]}
@@ -96,6 +100,7 @@ OPS = st.one_of(
     st.tuples(st.just("dropold"), st.sampled_from(["fin", "reset"])).map(list),
     st.just(["close"]), st.just(["shutdown"]), st.just(["stall"]),
     st.tuples(st.just("shutdown"), st.just("racing"), st.sampled_from(["call", "open", "sub", "zc"])).map(list),
+    st.tuples(st.sampled_from(["close", "shutdown"]), st.just("after-drop"), st.sampled_from(["fin", "reset"])).map(list),
     st.tuples(st.just("garble"), st.sampled_from(["text", "bytes"])).map(list),
 )
 
